@@ -61,12 +61,12 @@ def configs(tier):
         conts = gen.SPIN_CONTAINERS if kind == "spin" else gen.BOOL_CONTAINERS
         for bname, D in BASE:
             deg = max((len(k) for k in D), default=0)
-            for cont in conts:
-                if cont in gen.DEG2 and deg > 2:
+            for cont in list(conts) + (["QUSO-setmap", "PUSO-setrev"] if kind == "spin" else ["QUBO-setmap", "PUBO-setrev"]):
+                if cont.split("-")[0] in gen.DEG2 and deg > 2:
                     continue
-                if bname == "stale" and cont == "dict":
+                if bname == "stale" and (cont == "dict" or "-set" in cont):
                     continue
-                schemes = ("int",) if cont in gen.MATRIX else ("str", "gap")
+                schemes = ("int",) if cont in gen.MATRIX else (("str", "gap") if "-set" not in cont else ("int",))
                 for sch in schemes:
                     fns = (["anneal_quso"] if deg <= 2 else []) + ["anneal_puso"] if kind == "spin" else (["anneal_qubo"] if deg <= 2 else []) + ["anneal_pubo"]
                     for fn in fns:
@@ -82,7 +82,9 @@ def setup(case):
     D0 = dict(BASE)[case["base"]]
     n = 1 + max((i for k in D0 for i in k), default=-1)
     D = gen.relabel(D0, case["scheme"], max(n, 1))
-    M = dict(D) if case["container"] == "dict" else gen.build(case["container"], D)
+    M = dict(D) if case["container"] == "dict" else gen.build(case["container"].split("-")[0], D)
+    if "-set" in case["container"]:
+        gen.permute_mapping(M, case["container"].split("-")[1])     # user-chosen enumeration (documented set_mapping API)
     spin = case["kind"] == "spin"
     reported = None
     if case["base"] == "stale":
